@@ -395,11 +395,14 @@ def oracle_input_being_recomputed(o, program):
                 # only nodes whose re-execution entails a re-execution of P: members of a recurrent subgraph that
                 # contains P and lie upstream of P inside it
                 up = S.ancestors(g, pid) | {pid}
+                paths = [S.rec_path_nodes(program, m[1], m[2], g) for _, _, m in S.rec_marks(program)]
                 rel = set()
-                for _, _, m in S.rec_marks(program):
-                    path = S.rec_path_nodes(program, m[1], m[2], g)
-                    if pid in path:
-                        rel |= (path & up)
+                for a in up:
+                    mine = [p for p in paths if a in p]
+                    # every subgraph that can re-execute `a` must also contain P (an inner subgraph nested in an
+                    # outer one re-executes its own members only)
+                    if mine and all(pid in p for p in mine):
+                        rel.add(a)
                 anc_cache[pid] = rel
             for a in anc_cache[pid]:
                 for e in by_node.get(a, []):
@@ -460,11 +463,11 @@ def outside_reader_templates(draw, tier):
 def outside_reader_cases(draw, tier):
     """recurrent subgraphs whose interior is also read from outside (known finding F6: which iteration the reader
     sees is schedule-dependent). Only the model-free oracle above is applied to these cases."""
-    # overlapping subgraphs (known finding F7) are kept out: there the re-execution of a shared start node by ONE
-    # subgraph does not entail the recomputation of the members of the OTHER, and the rule below would not be sound
+    # exactly one recurrent subgraph: with several, a start node of one subgraph may read the interior of another
+    # with a readiness test that looks at its own subgraph only, and the rule below would not be sound
     prog = draw(G.programs(feats=('rec', 'default', 'retry'), clean=False, min_nodes=4,
                            max_nodes=8 if tier == 'quick' else 10, p_feat=40).filter(
-        lambda p: not F.f7_overlapping_recurrent(p)))
+        lambda p: not F.f7_overlapping_recurrent(p) and len({(m[1], m[2]) for _, _, m in S.rec_marks(p)}) == 1))
     var = draw(G.variants(prog, feats=('rec',)))
     scheds = [draw(G.schedules(prog)) for _ in range(3)]
     return {'program': prog, 'variant': var, 'scheds': scheds, 'outside_readers': True}
